@@ -32,6 +32,7 @@ EXPLANATION += ' Added after the seeded-change rounds: ' + 'D4 also: task_arena_
 EXPLANATION += ' Added in the third session (round-3 seeds and the findings they led to): ' + "D1 also: every scan of a monitor's wait set steps in the direction of its start (front/next, last/prev); D4 also: a bounded-queue consumer announces every claimed head ticket to the producers before it claims another one (invalid entries included, path-sensitive) and also when moving the item out throws; D7 also: the serializer's pending-request word holds base + delta for every value of the delta parameter and is examined in full width."
 EXPLANATION += ' Added in the fourth round of seeded changes: ' + 'D7 also: with a worker soft limit of 0 the grant of the mandatory worker in market::update_allotment does not depend (backward slice) on a per-priority-level quantity.'
 EXPLANATION += ' Added later in the fourth round: ' + 'D2 also: every condition that can end a wait loop through commit_wait is evaluated again between prepare_wait and commit_wait (the exit conditions are identified by the calls they test, looking through local variables).'
+EXPLANATION += ' Added in the fifth round: ' + 'D4 also: rw_mutex::downgrade with no writer pending passes a wake-all notifier (which r1 notifiers wake every matching sleeper is read from their bodies).'
 ASSUMPTIONS = ['C++11 memory model; only seq_cst fences / seq_cst RMWs order a store before a later load',
                'futex / OS semaphore below the P/V interface are trusted', 'Linux configuration (__TBB_USE_FUTEX) is analysed']
 ND = ['eventual execution (liveness) itself', 'fairness of the OS semaphore/futex', 'thread_monitor internals below P/V']
